@@ -65,6 +65,7 @@ class RealWorld:
         self.seq = {}            # signature octets -> order of first appearance
         self.nseq = 0
         self.getuid_fail = None
+        self.shadows = []        # (original PGPKey kept alive after `copy`, its state string, its public export) -- aliasing oracle
 
     # ---- helpers
     def reg(self, k, label):
@@ -247,7 +248,25 @@ class RealWorld:
     def op_copy(self, k):
         o = self.obj(k)
         if o is None: return 'skip'
+        orig = o['k']
         o['k'] = copy.copy(o['k']); o['cm'] = None
+        if len(self.shadows) < 4 and orig.is_public or (not orig.is_public and self.lock_state(orig) == 0 and len(self.shadows) < 4):
+            # the history continues on the COPY; the original stays alive and must never change again
+            self.shadows.append((orig, self.key_s(orig), bytes(orig.pubkey if not orig.is_public else orig)))
+
+    def shadow_fail(self):
+        with warnings.catch_warnings():
+            warnings.simplefilter('ignore')
+            for orig, s0, b0 in self.shadows:
+                try:
+                    s1, b1 = self.key_s(orig), bytes(orig.pubkey if not orig.is_public else orig)
+                except Exception as ex:
+                    return 'the original of a copied key can no longer be inspected: %r' % ex
+                if s1 != s0:
+                    return 'the original of a copied key changed when the copy was used: %s -> %s' % (s0[:150], s1[:150])
+                if b1 != b0:
+                    return 'the public export of the original of a copied key changed when the copy was used'
+        return None
 
     def op_reimport(self, k):
         o = self.obj(k)
@@ -522,6 +541,10 @@ def run_history_(ctx, pgpy, d, cmds, suite, check_from=0, oracle_every=True, cas
             if fails:
                 ctx.fail(suite, 'direct oracle after step %d (%s): %s' % (n, ' '.join(cmd), '; '.join(fails[:3])), dict(case, step=n))
                 return False
+        sf = rw.shadow_fail()
+        if sf:
+            ctx.fail(suite, 'aliasing after step %d (%s): %s' % (n, ' '.join(cmd), sf), dict(case, step=n))
+            return False
         new = rw.reports()
         want = expected_reports(reports, cmd, res, nobj)
         if want is not None and {k: v for k, v in new.items() if v} != {k: v for k, v in want.items() if v}:
